@@ -167,6 +167,13 @@ def handle (fields : List String) : String :=
       match Model.parseDoc cfg (decStr src) with
       | .ok toks => "ok " ++ (Json.arr toks).canon
       | .error e => "error " ++ (repr e).pretty
+  | ["ref_build", keys] =>
+    -- the reference-table machine on a list of definition keys (data = position of the event)
+    let ks := decList keys
+    let evs := ks.zipIdx
+    let tbl := refBuild ([] : List (Str × Nat)) evs
+    let firsts := evs.map (fun p => if refLookup tbl p.1 == some p.2 then "1" else "0")
+    encListS (tbl.map (·.1)) ++ ";" ++ ",".intercalate firsts
   | ["ping"] => "pong"
   | _ => "bad-op"
 
